@@ -11,7 +11,8 @@ FV = 'xmlschema/validators/validation.py'
 # ------------------------------------------------------------------ raise_or_collect
 t = Target('validation.raise_or_collect', ['C04', 'C19', 'C11'], FV, 'ValidationContext.raise_or_collect',
            note="strict: raises the very error passed, errors list unchanged; lax: appends it, returns it; skip: returns it, list "
-                "unchanged; error.elem is completed from context.elem only when it was None; nothing else escapes (lax never raises)")
+                "unchanged; error.elem is completed from context.elem only when the error has no node of its own - neither an element nor (lazy "
+                "resources keep only it) the path of one; nothing else escapes (lax never raises)")
 
 
 @t.symbolic
@@ -19,6 +20,7 @@ def _(run):
     ex = run.exec(); st = new_state()
     err = z3.Const('error', Ref); ctx_elem = z3.Const('ctx_elem', Ref)
     st.objf['error'] = {'elem': VOpt(z3.Bool('err_elem_none'), VRef(z3.Const('err_elem', Ref))),
+                        'path': VOpt(z3.Bool('path_none'), VStr(z3.String('err_path'))),
                         'reason': VOpt(z3.Bool('reason_none'), VStr(z3.String('reason'))), 'obj': OPAQUE,
                         'stack_trace': VOpt(z3.Bool('st_none'), VStr(z3.String('stack')))}
     errors0 = z3.Const('errors0', z3.SeqSort(Ref))
@@ -32,16 +34,18 @@ def _(run):
     orig_key = ex.key
     ex.key = lambda v: err if isinstance(v, VObj) and v.name == 'error' else orig_key(v)
     val = st.env['validation'].t
-    pre = z3.Or(val == SV('strict'), val == SV('lax'), val == SV('skip'))
-    run.inputs.update(validation=val, err_elem_none=z3.Bool('err_elem_none'), ctx_elem_none=z3.Bool('ctx_elem_none'),
+    # an error that holds an element of a loaded resource also has its path (representation invariant of the error class)
+    pre = z3.And(z3.Or(val == SV('strict'), val == SV('lax'), val == SV('skip')), z3.Implies(z3.Not(z3.Bool('err_elem_none')), z3.Not(z3.Bool('path_none'))))
+    run.inputs.update(validation=val, path_none=z3.Bool('path_none'), err_elem_none=z3.Bool('err_elem_none'), ctx_elem_none=z3.Bool('ctx_elem_none'),
                       attr_none=z3.Bool('attr_none'), reason=('opt', z3.Bool('reason_none'), z3.String('reason')))
     outs = ex.run(st, pre)
 
     def elem_ok(s):
         e_elem = s.objf['error']['elem']
-        return z3.If(z3.Bool('err_elem_none'),
+        return z3.If(z3.And(z3.Bool('err_elem_none'), z3.Bool('path_none')),
                      z3.And(e_elem.none == z3.Bool('ctx_elem_none'), z3.Implies(z3.Not(e_elem.none), e_elem.val.t == ctx_elem)),
-                     z3.And(z3.Not(e_elem.none), e_elem.val.t == z3.Const('err_elem', Ref)))
+                     z3.If(z3.Bool('err_elem_none'), e_elem.none,          # the error of a lazy resource: its own path stays, no element is attached
+                     z3.And(z3.Not(e_elem.none), e_elem.val.t == z3.Const('err_elem', Ref))))
     errs = lambda s: s.heap[s.objf['self']['errors'].cell]['seq']
     same_obj = lambda v: z3.BoolVal(isinstance(v, VObj) and v.name == 'error')
 
@@ -75,7 +79,15 @@ def _(inp):
     prior = XMLSchemaValidationError(s, 'x', 'prior'); ctx.errors.append(prior)
     err = XMLSchemaValidationError(s, 'obj', inp.get('reason'))
     err.elem = None if inp['err_elem_none'] else e2
-    want_elem = (e2 if not inp['err_elem_none'] else ctx.elem)
+    want_elem = (e2 if not inp['err_elem_none'] else ctx.elem); want_path = None
+    if inp['err_elem_none'] and not inp.get('path_none', True):
+        # the error of a lazy resource: assigning its element stores the path and drops the element
+        import io, xmlschema
+        lz = xmlschema.XMLResource(io.StringIO('<a><b/><c/></a>'), lazy=True)
+        node = next(iter(lz.iter_depth()))
+        err = XMLSchemaValidationError(s, 'obj', inp.get('reason'), source=lz); err.elem = node
+        want_path = err.path; want_elem = None
+        if err.elem is not None or want_path is None: return dict(ok=False, observed='harness: a lazy error did not drop its element', required='lazy errors keep the path only')
     try:
         r = ctx.raise_or_collect(inp['validation'], err); raised = None
     except XMLSchemaValidationError as x:
@@ -90,8 +102,8 @@ def _(inp):
         if raised is not None or r is not err: failed.append('strict-raises-the-error-else-returns-it')
         want = [prior, err] if inp['validation'] == 'lax' else [prior]
         if len(ctx.errors) != len(want) or any(a is not b for a, b in zip(ctx.errors, want)): failed.append('errors-list-appended-only-in-lax')
-    if err.elem is not want_elem: failed.append('error-elem-defaults-to-context-elem')
-    return dict(ok=not failed, observed=dict(raised=raised is not None, n_errors=len(ctx.errors)), required='see clauses', failed=failed)
+    if err.elem is not want_elem or (want_path is not None and err.path != want_path): failed.append('error-elem-defaults-to-context-elem')
+    return dict(ok=not failed, observed=dict(raised=raised is not None, n_errors=len(ctx.errors), path=err.path), required='see clauses', failed=failed)
 
 
 @t.scope
@@ -101,7 +113,8 @@ def _(tier, rng):
             for b in (True, False):
                 for c in (True, False):
                     for reason in (None, 'bad', 'attribute x'):
-                        yield dict(validation=v, err_elem_none=a, ctx_elem_none=b, attr_none=c, reason=reason)
+                        yield dict(validation=v, err_elem_none=a, ctx_elem_none=b, attr_none=c, reason=reason, path_none=a)
+                        if a: yield dict(validation=v, err_elem_none=a, ctx_elem_none=b, attr_none=c, reason=reason, path_none=False)
 
 
 # ------------------------------------------------------------------ ValidationContext.clear : every status slot is reset
